@@ -959,6 +959,75 @@ func chainedCounter(idx ssa.Value, depth int) (*ssa.Phi, bool) {
 	return nil, false
 }
 
+// continuedCounter: a runs over consecutive positions that start where another site's counter (from 0) is
+// bounded: phi(V, +1) after `b < V`, or V + i with i a counter from zero (`for i := range xs[V:] { ... V+i ... }`),
+// where the other counter b stops at V (`b < V`, or b ranges over xs[:V]).
+func continuedCounter(a ssa.Value, others []ssa.Value) (*ssa.Phi, bool) {
+	var init ssa.Value
+	var own *ssa.Phi
+	if ph, isPhi := a.(*ssa.Phi); isPhi && len(ph.Edges) == 2 {
+		step := false
+		for _, e := range ph.Edges {
+			if bo, isBO := e.(*ssa.BinOp); isBO && bo.Op == token.ADD && bo.X == ssa.Value(ph) {
+				if c, isC := bo.Y.(*ssa.Const); isC && c.Value != nil && constant.Compare(c.Value, token.EQL, constant.MakeInt64(1)) {
+					step = true
+					continue
+				}
+			}
+			init = e
+		}
+		if !step {
+			init = nil
+		}
+		own = ph
+	} else if bo, isBO := a.(*ssa.BinOp); isBO && bo.Op == token.ADD {
+		for _, pr := range [][2]ssa.Value{{bo.X, bo.Y}, {bo.Y, bo.X}} {
+			if ph, isCtr := chainedCounter(pr[1], 0); isCtr {
+				if _, fromZero := counterFromZero(pr[1]); fromZero {
+					init, own = pr[0], ph
+				}
+			}
+		}
+	}
+	if init == nil || own == nil {
+		return nil, false
+	}
+	isBound := func(v ssa.Value) bool {
+		if v == init {
+			return true
+		}
+		// len(xs[:V])
+		c, isCall := v.(*ssa.Call)
+		if !isCall {
+			return false
+		}
+		b, isB := c.Call.Value.(*ssa.Builtin)
+		if !isB || b.Name() != "len" || len(c.Call.Args) != 1 {
+			return false
+		}
+		sl, isSl := c.Call.Args[0].(*ssa.Slice)
+		if !isSl || sl.High != init {
+			return false
+		}
+		if sl.Low != nil {
+			if lc, isC := sl.Low.(*ssa.Const); !isC || lc.Value == nil || constant.Sign(lc.Value) != 0 {
+				return false
+			}
+		}
+		return true
+	}
+	for _, b := range others {
+		bphi, okb := chainedCounter(b, 0)
+		if !okb || b == a {
+			continue
+		}
+		if boundedBy(b, bphi.Block().Succs[0], isBound) || boundedBy(ssa.Value(bphi), bphi.Block().Succs[0], isBound) {
+			return own, true
+		}
+	}
+	return nil, false
+}
+
 func c12EvaluationsSSA(r *Run) {
 	w := r.W
 	cm := w.callModel()
@@ -974,6 +1043,14 @@ func c12EvaluationsSSA(r *Run) {
 		bad  string
 	}
 	sites := map[string]*site{}
+	var twiceAt token.Pos
+	twice := false
+	var zeroLoops []*ssa.BasicBlock // heads of the loops whose counter starts at position 0
+	noteZero := func(idx ssa.Value, phi *ssa.Phi) {
+		if _, zero := counterFromZero(idx); zero && phi != nil {
+			zeroLoops = append(zeroLoops, phi.Block())
+		}
+	}
 	for _, p := range cm.paths {
 		for _, ev := range p.events {
 			c, ok := ev.(*ssa.Call)
@@ -1039,36 +1116,13 @@ func c12EvaluationsSSA(r *Run) {
 			for _, a := range cargs {
 				phi, ok := chainedCounter(a, 0)
 				if !ok {
-					// a counter that starts where another site's counter (from 0) is bounded: phi(V, +1) after `b < V`
-					if ph, isPhi := a.(*ssa.Phi); isPhi && len(ph.Edges) == 2 {
-						var init ssa.Value
-						step := false
-						for _, e := range ph.Edges {
-							if bo, isBO := e.(*ssa.BinOp); isBO && bo.Op == token.ADD && bo.X == ssa.Value(ph) {
-								if c, isC := bo.Y.(*ssa.Const); isC && c.Value != nil && constant.Compare(c.Value, token.EQL, constant.MakeInt64(1)) {
-									step = true
-									continue
-								}
-							}
-							init = e
-						}
-						if step && init != nil {
-							for _, b := range cargs {
-								bphi, okb := chainedCounter(b, 0)
-								if !okb || b == a {
-									continue
-								}
-								if boundedBy(b, bphi.Block().Succs[0], func(v ssa.Value) bool { return v == init }) || boundedBy(ssa.Value(bphi), bphi.Block().Succs[0], func(v ssa.Value) bool { return v == init }) {
-									phi, ok = ph, true
-								}
-							}
-						}
-					}
+					phi, ok = continuedCounter(a, cargs)
 				}
 				if !ok {
 					okAll = false
 					break
 				}
+				noteZero(a, phi)
 				loopsSeen[phi.Block()]++
 			}
 			if okAll {
@@ -1088,6 +1142,7 @@ func c12EvaluationsSSA(r *Run) {
 		h := phi.Block()
 		ia := s.idx
 		_ = ia
+		noteZero(s.idx, phi)
 		loopsSeen[h]++
 		r.Ok("R1", name, con, w.Pos(s.idx.Pos()), "the index ascends by one from 0 (or from where the previous loop stopped)")
 	}
@@ -1095,5 +1150,21 @@ func c12EvaluationsSSA(r *Run) {
 		if n > 1 {
 			r.Bad("R1", name, "two evaluations in one loop", w.Pos(firstPos(h)), "an argument position is evaluated more than once per iteration")
 		}
+	}
+	for i, h1 := range zeroLoops {
+		for _, h2 := range zeroLoops[i+1:] {
+			if h1 != h2 && h1.Parent() == h2.Parent() && (blockReaches(h1, h2, true) || blockReaches(h2, h1, true)) && !twice {
+				twice = true
+				twiceAt = firstPos(h2)
+				if !twiceAt.IsValid() {
+					twiceAt = cm.fn.Pos()
+				}
+			}
+		}
+	}
+	if twice {
+		r.Bad("R1", name, "two loops from position 0 on one path", w.Pos(twiceAt), "two loops over the arguments start at position 0 and one can follow the other: the leading arguments are evaluated twice (and handed over in place of the later ones)")
+	} else {
+		r.Ok("R1", name, "one loop from position 0 per path", w.Pos(cm.fn.Pos()), fmt.Sprintf("%d loop(s) over the arguments start at position 0, none of which can follow another; any other loop continues where the previous stopped", len(zeroLoops)))
 	}
 }
